@@ -242,10 +242,50 @@ def flow_dataflow(ctx, repo, c, sv, ld):
                "load does not install the arrays stored in the file in the object it returns: the reloaded flow has freshly initialised weights", disc="load|weights")
 
 
+def array_shape_rule(ctx, repo):
+    """Decoding a numeric array keeps it an array: only a 0-d array is collapsed to a
+    scalar, only a string array is turned into a list."""
+    dec = repo.func(f"{U}:decode_from_hdf5")
+    W = T.atom(dec.params[0])
+    ev = Evaluator(repo, max_depth=0, assume=_kind_oracle(dict(types={"ndarray"}), W), opaque_methods={"item", "tolist", "astype"})
+    r = T.strip_raise(ev.run(dec))
+    zero_d = [("cmp", "==", ("attr", W, "shape"), ("t", ())), ("cmp", "==", ("t", ()), ("attr", W, "shape"))]
+    bad = []
+
+    def is_zero_d(c):
+        if c in zero_d:
+            return True
+        return c[0] == "cmp" and c[1] == "==" and len(c) == 3 and any(x == ("attr", W, "ndim") for x in T.subterms(c))
+
+    def is_string_kind(c):
+        return c[0] == "in" and c[1] == ("attr", ("attr", W, "dtype"), "kind")
+
+    def walk(t, conds):
+        if t[0] == "phi":
+            walk(t[2], conds + [(t[1], True)])
+            walk(t[3], conds + [(t[1], False)])
+            return
+        if t == W:
+            return
+        scalarised = any(x[0] == "f" and x[1] == "method:item" for x in T.subterms(t))
+        listed = any(x[0] == "f" and x[1] == "method:tolist" for x in T.subterms(t))
+        if scalarised and not any(pol and is_zero_d(c) for c, pol in conds):
+            bad.append("an array is collapsed to a scalar under " + (" and ".join(("" if pol else "not ") + T.show(c)[:50] for c, pol in conds) or "no condition")
+                       + ", not only when it is 0-d: a one-element array (a single sample, one parameter) reloads as a bare number")
+        elif listed and not any(pol and is_string_kind(c) for c, pol in conds):
+            bad.append("a non-string array is turned into a list")
+        elif not scalarised and not listed:
+            bad.append(f"an array decodes to {T.show(t)[:80]}")
+    walk(r, [])
+    ctx.decide(not bad, "C13.dispatch", dec.ident, loc_of(dec), "a stored array reloads as that array (0-d arrays as scalars, string arrays as lists of str)",
+               bad[0] if bad else "", disc="dec|array shape")
+
+
 def run(ctx):
     repo = ctx.repo
     um = repo.module(U)
     codec_dispatch(ctx, repo)
+    array_shape_rule(ctx, repo)
 
     # (1) sentinels
     enc, dec = repo.func(f"{U}:encode_for_hdf5"), repo.func(f"{U}:decode_from_hdf5")
@@ -562,6 +602,7 @@ MUTANTS += [
     M("encoder: sample sets returned raw", _U, "if isinstance(value, BaseSamples):\n        value = encode_samples(value)", "if not isinstance(value, BaseSamples):\n        value = encode_samples(value)", "C13.dispatch"),
     M("encoder: empty test inverted", _U, "if not value:\n            return \"__empty_dict__\"", "if value:\n            return \"__empty_dict__\"", "C13.dispatch"),
     M("encoder: nested values not encoded", _U, "return {k: encode_for_hdf5(v) for k, v in value.items()}", "return {k: v for k, v in value.items()}", "C13.dispatch"),
+    M("decoder: one-element arrays become scalars", _U, "if value.shape == ():\n            return value.item()", "if value.size == 1:\n            return value.item()", "C13.dispatch"),
     M("decoder: sentinels swapped", _U, "if value == \"__none__\":\n            return None\n        if value == \"__empty_dict__\":\n            return {}", "if value == \"__none__\":\n            return {}\n        if value == \"__empty_dict__\":\n            return None", "C13.dispatch"),
     M("decoder: bytes not decoded", _U, "if isinstance(value, bytes):  # HDF5 may store strings as bytes\n        value = value.decode(\"utf-8\")", "if isinstance(value, str):\n        value = value.decode(\"utf-8\")", "C13.dispatch"),
     M("decoder: sample sets not rebuilt", _U, "if \"__samples__\" in value:\n            return decode_samples(value)", "if \"__samples__\" not in value:\n            return decode_samples(value)", "C13.dispatch"),
@@ -570,6 +611,7 @@ MUTANTS += [
     M("from_dict stacks columns in mapping order", _S, "x = np.stack([samples[p] for p in parameters], axis=-1)", "x = np.stack(list(samples.values()), axis=-1)", "C13.dictorder"),
 ]
 NEUTRALS = [
+    M("decoder: 0-d test by ndim", _U, "if value.shape == ():\n            return value.item()", "if value.ndim == 0:\n            return value.item()"),
     M("encoder: None tested first", _U, "if is_jax_array(value) or is_torch_array(value):\n        return to_numpy(value)", "if value is None:\n        return \"__none__\"\n    if is_jax_array(value) or is_torch_array(value):\n        return to_numpy(value)"),
     M("decoder: sentinel tests reordered", _U, "if value == \"__none__\":\n            return None\n        if value == \"__empty_dict__\":\n            return {}", "if value == \"__empty_dict__\":\n            return {}\n        if value == \"__none__\":\n            return None"),
 
